@@ -1,51 +1,100 @@
-# ./check Cnn [--tier quick|thorough] [--replay PATH]: extract facts for the current /repo tree (cached by content hash), run the
-# property's rule instances, match known findings, write evidence/<Cnn>.json, print VIOLATION / KNOWN-FINDING lines.
-import sys, os, json, time, hashlib, subprocess, importlib, glob, shutil
+# ./check Cnn [--tier quick|thorough] [--replay PATH]
+#   extract MIR facts for the current /repo working tree (cached by content hash, extraction serialised by a file lock),
+#   run the property's rule instances, match known findings, write evidence/<Cnn>.json, print VIOLATION / KNOWN-FINDING lines.
+#   exit 0: every rule instance held (or only listed known findings were hit); exit 1: at least one VIOLATION line;
+#   exit 2: /repo does not build (no verdict, outside the "still compiles" contract).
+import sys, os, json, time, hashlib, subprocess, importlib, glob, shutil, fcntl, traceback, contextlib
 
 ROOT = os.path.dirname(os.path.dirname(os.path.abspath(__file__)))
 REPO = os.environ.get("VERIF_REPO", "/repo")
 CRATES = ["renet", "renetcode", "renet_netcode"]
 DRIVER = os.path.join(ROOT, "driver", "target", "release", "verif-mir-driver")
+CACHE = os.environ.get("VERIF_CACHE", os.path.join(ROOT, ".cache"))
+
 
 def sha(paths):
     h = hashlib.sha256()
     for p in sorted(paths):
-        h.update(p.encode()); h.update(b"\0")
+        h.update(os.path.relpath(p, "/").encode()); h.update(b"\0")
         with open(p, "rb") as f: h.update(f.read())
     return h.hexdigest()
 
-def source_files():
-    out = [os.path.join(REPO, "Cargo.toml"), os.path.join(REPO, "Cargo.lock")]
+
+def source_files(repo=None):
+    repo = repo or REPO
+    out = [os.path.join(repo, "Cargo.toml"), os.path.join(repo, "Cargo.lock")]
     for c in CRATES:
-        for d, dirs, files in os.walk(os.path.join(REPO, c)):
+        for d, dirs, files in os.walk(os.path.join(repo, c)):
             dirs[:] = [x for x in dirs if x not in ("target", ".git")]
             out += [os.path.join(d, f) for f in files]
     return [p for p in out if os.path.isfile(p)]
 
+
 def analysis_files():
     return glob.glob(os.path.join(ROOT, "sa", "*.py")) + glob.glob(os.path.join(ROOT, "rules", "*.py")) + glob.glob(os.path.join(ROOT, "tables", "*"))
 
-def ensure_facts():
-    key = sha(source_files() + [DRIVER])[:24]
-    d = os.path.join(ROOT, ".cache", "facts", key)
-    if all(os.path.exists(os.path.join(d, c + ".json")) for c in CRATES): return d, key, False
-    os.makedirs(d, exist_ok=True)
-    target = os.path.join(ROOT, ".cache", "target")
+
+@contextlib.contextmanager
+def locked(name):
+    os.makedirs(CACHE, exist_ok=True)
+    with open(os.path.join(CACHE, name + ".lock"), "w") as lf:
+        fcntl.flock(lf, fcntl.LOCK_EX)
+        try: yield
+        finally: fcntl.flock(lf, fcntl.LOCK_UN)
+
+
+def build_driver():
+    """setup normally does this; a check run on a fresh restore without setup still works"""
+    if os.path.exists(DRIVER): return
+    with locked("driver"):
+        if os.path.exists(DRIVER): return
+        env = dict(os.environ, CARGO_NET_OFFLINE="true")
+        p = subprocess.run(["cargo", "build", "--offline", "--release"], cwd=os.path.join(ROOT, "driver"), env=env, capture_output=True, text=True)
+        if p.returncode != 0 or not os.path.exists(DRIVER):
+            sys.stderr.write(p.stderr[-3000:]); print("check: the fact extractor does not build (no verdict)"); sys.exit(2)
+
+
+def extract(repo, out_dir, target):
+    """run the driver over the three library crates of `repo`; returns (ok, stderr)"""
+    os.makedirs(out_dir, exist_ok=True)
     for c in CRATES:
-        for fp in glob.glob(os.path.join(target, "debug", ".fingerprint", c.replace("-", "_") + "-*")) + glob.glob(os.path.join(target, "debug", ".fingerprint", c + "-*")): shutil.rmtree(fp, ignore_errors=True)
+        for fp in glob.glob(os.path.join(target, "debug", ".fingerprint", c + "-*")): shutil.rmtree(fp, ignore_errors=True)
     sysroot = subprocess.check_output(["rustc", "+nightly", "--print", "sysroot"], text=True).strip()
-    nonce = f"{os.getpid()}-{int(time.time())}"
+    nonce = f"{os.getpid()}-{time.time_ns()}"
     env = dict(os.environ, LD_LIBRARY_PATH=os.path.join(sysroot, "lib"), RUSTFLAGS="-Zmir-opt-level=0 -Awarnings", RUSTC_WORKSPACE_WRAPPER=DRIVER,
-               CARGO_TARGET_DIR=target, VERIF_FACTS_DIR=d, VERIF_NONCE=nonce, CARGO_NET_OFFLINE="true")
-    p = subprocess.run(["cargo", "+nightly", "check", "--offline", "--lib"] + sum([["-p", c] for c in CRATES], []), cwd=REPO, env=env, capture_output=True, text=True)
-    ok = p.returncode == 0 and all(os.path.exists(os.path.join(d, c + ".json")) for c in CRATES)
+               CARGO_TARGET_DIR=target, VERIF_FACTS_DIR=out_dir, VERIF_NONCE=nonce, CARGO_NET_OFFLINE="true")
+    env.pop("RUSTC_WRAPPER", None)
+    p = subprocess.run(["cargo", "+nightly", "check", "--offline", "--lib"] + sum([["-p", c] for c in CRATES], []), cwd=repo, env=env, capture_output=True, text=True)
+    ok = p.returncode == 0 and all(os.path.exists(os.path.join(out_dir, c + ".json")) for c in CRATES)
     if ok:
         for c in CRATES:
-            if json.load(open(os.path.join(d, c + ".json")))["nonce"] != nonce: ok = False
-    if not ok:
+            with open(os.path.join(out_dir, c + ".json")) as f:
+                head = f.read(400)
+            if nonce not in head: ok = False
+    return ok, p.stderr
+
+
+def ensure_facts():
+    build_driver()
+    key = sha(source_files() + [DRIVER])[:24]
+    d = os.path.join(CACHE, "facts", key)
+    done = lambda: all(os.path.exists(os.path.join(d, c + ".json")) for c in CRATES)
+    if done(): return d, key, False
+    with locked("extract"):
+        if done(): return d, key, False
+        tmp = d + f".tmp{os.getpid()}"
+        shutil.rmtree(tmp, ignore_errors=True)
+        ok, err = extract(REPO, tmp, os.path.join(CACHE, "target"))
+        if not ok:
+            shutil.rmtree(tmp, ignore_errors=True)
+            sys.stderr.write(err[-4000:]); print("check: /repo does not build or facts were not produced (no verdict)"); sys.exit(2)
         shutil.rmtree(d, ignore_errors=True)
-        sys.stderr.write(p.stderr[-3000:]); print("check: /repo does not build or facts were not produced (no verdict)"); sys.exit(2)
+        os.rename(tmp, d)
+        # keep the cache small: drop all but the 6 most recent fact directories
+        olds = sorted(glob.glob(os.path.join(CACHE, "facts", "*")), key=os.path.getmtime)[:-6]
+        for o in olds: shutil.rmtree(o, ignore_errors=True)
     return d, key, True
+
 
 def load_known(cid):
     known, fixed = {}, []
@@ -54,54 +103,96 @@ def load_known(cid):
         for l in open(p):
             l = l.strip()
             if not l or l.startswith("#"): continue
-            if l.startswith("fixed:"): fixed.append(l); continue
+            if l.startswith("fixed:"):
+                if f"property={cid} " in l: fixed.append(l)
+                continue
             j = json.loads(l)
             if j["property"] == cid: known[j["key"]] = j
     return known, fixed
 
+
+def run_rules(cid, facts_dir, tier):
+    from sa.facts import Facts
+    from sa.rules import Tree, RuleResult
+    F = Facts(facts_dir); t = Tree(F)
+    t.tier = tier
+    mod = importlib.import_module(f"rules.{cid}")
+    try:
+        results = [r.finish() for r in mod.rules(t)]
+    except SystemExit: raise
+    except Exception as e:  # fail closed: a rule that cannot find the shape it is anchored in reports, it does not pass
+        tb = traceback.format_exc()
+        sys.stderr.write(tb)
+        r = RuleResult(f"{cid}.analysis", "the property's rule file could be evaluated on this tree", floor=0)
+        last = [l for l in tb.strip().splitlines() if l.strip().startswith("File ")][-1].strip() if "File " in tb else ""
+        r.bad("analysis-error", None, f"anchor-missing: a rule of {cid} could not be evaluated ({type(e).__name__}: {str(e)[:160]}; {last[:160]}) - the code it is anchored in changed shape")
+        results = [r.finish()]
+    return F, results
+
+
 def main():
     args = sys.argv[1:]
     cid = args[0]
-    tier = os.environ.get("VERIF_TIER", "quick")
+    tier = os.environ.get("VERIF_TIER") or "quick"
     if "--tier" in args: tier = args[args.index("--tier") + 1]
-    seed = int(os.environ.get("VERIF_SEED", "0") or 0)
+    if tier not in ("quick", "thorough"): tier = "quick"
+    replay = args[args.index("--replay") + 1] if "--replay" in args else None
+    try: seed = int(os.environ.get("VERIF_SEED", "0") or 0)
+    except ValueError: seed = 0
     t0 = time.time()
     sys.path.insert(0, ROOT)
     facts_dir, key, fresh = ensure_facts()
     os.environ["FACTS"] = facts_dir
     os.environ["VERIF_ANALYSIS_KEY"] = sha(analysis_files())[:16]
-    from sa.facts import Facts
-    from sa.rules import Tree
-    F = Facts(facts_dir); t = Tree(F)
-    mod = importlib.import_module(f"rules.{cid}")
-    results = [r.finish() for r in mod.rules(t)]
+    os.environ["VERIF_TIER_EFFECTIVE"] = tier
+    F, results = run_rules(cid, facts_dir, tier)
+    extra = {}
+    if tier == "thorough":
+        from sa import thorough
+        more, extra = thorough.run(cid, F, facts_dir, key)
+        results += [r.finish() for r in more]
     known, fixed = load_known(cid)
     viol, hits = [], []
     for r in results:
         for v in r.violations:
             (hits if v.key in known else viol).append(v)
+    if replay:
+        want = json.load(open(replay))
+        viol = [v for v in viol if v.key == want.get("key")]
+        print(f"replay of {want.get('rule')} [{want.get('key')}]: {'still violated' if viol else 'no longer violated on the current tree'}")
     os.makedirs(os.path.join(ROOT, "evidence", "replay"), exist_ok=True)
     for v in hits: print(f"KNOWN-FINDING: property={cid} {known[v.key]['what']}")
+    for r in results:
+        st = "ok " if not r.violations else "BAD"
+        print(f"  [{st}] {r.id:10s} sites={r.sites:<4d} floor={r.floor:<4d} {r.descr}")
     for i, v in enumerate(viol):
         rp = os.path.join(ROOT, "evidence", "replay", f"{cid}-{i}.json")
-        json.dump(dict(property=cid, rule=v.rule, key=v.key, location=v.site.loc() if v.site else None, message=v.msg, facts=facts_dir), open(rp, "w"), indent=1)
-        print(f"  {v.rule} {v.site.loc() if v.site else ''}: {v.msg}")
+        json.dump(dict(property=cid, rule=v.rule, key=v.key, location=v.site.loc() if v.site else None, message=v.msg, facts=facts_dir, facts_key=key), open(rp, "w"), indent=1)
+        print(f"  -> {v.rule} {v.site.loc() if v.site else ''}: {v.msg}  [key {v.key}]")
         print(f"VIOLATION property={cid} replay={rp}")
     sites = sum(r.sites for r in results)
     obl = {k: sum(getattr(r, "counts", {}).get(k, 0) for r in results) for k in ("obligations", "discharged", "vetted")}
-    ev = dict(property_id=cid, tier=tier, seed=seed, level="other",
-              coverage=dict(explanation=f"static analysis of the MIR of renet, renetcode, renet_netcode (lib targets, dev profile) of the current /repo tree (facts {key}, "
-                                        f"{len(F.fns)} function bodies): {len(results)} rule instances over {sites} anchor sites; every instance quantifies over all CFG paths of the functions it anchors in. "
-                                        + " | ".join(f"{r.id}: {r.descr} [{r.sites} sites, floor {r.floor}, {'ok' if not r.violations else str(len(r.violations)) + ' violation(s)'}]" for r in results),
-                            evaluations=sites, distinct_nontrivial=len(results), rule="one evaluation = one anchor site (store, call, aggregate, branch, obligation) checked by a rule instance; distinct_nontrivial = rule instances with at least their floor of sites",
-                            samples=[s_ for r in results for s_ in r.samples][:24], exhaustive=True, functions_analysed=len(F.fns), rule_instances=[r.id for r in results],
-                            known_findings_hit=[v.key for v in hits], **({k: v for k, v in obl.items() if v} if obl["obligations"] else {})),
-              assumptions=["64-bit target; dev-profile MIR at mir-opt-level 0 is the program", "dependency crates behave as in tables/contracts (octets, bytes, std, chacha20poly1305)",
-                           "a passing check means the listed necessary conditions hold on every path, not that the behavioural property holds (see DESIGN.md, 'Not decided')"],
+    cov = dict(explanation=f"static analysis of the MIR of renet, renetcode, renet_netcode (lib targets, dev profile, mir-opt-level 0) of the current /repo working tree "
+                           f"(facts {key}, {len(F.fns)} function bodies): {len(results)} rule instances over {sites} anchor sites; every instance quantifies over all CFG paths "
+                           f"of the functions it anchors in; nothing is executed. "
+                           + " | ".join(f"{r.id}: {r.descr} [{r.sites} sites, floor {r.floor}, {'ok' if not r.violations else str(len(r.violations)) + ' violation(s)'}]" for r in results),
+               evaluations=sites, distinct_nontrivial=sum(1 for r in results if r.sites >= max(1, r.floor)),
+               rule="one evaluation = one anchor site (store, call, aggregate, branch, obligation) checked by a rule instance; distinct_nontrivial = rule instances that matched at least one site and at least their floor",
+               samples=[s_ for r in results for s_ in r.samples[:3]][:40], exhaustive=True, functions_analysed=len(F.fns), rule_instances=[dict(id=r.id, sites=r.sites, floor=r.floor, violations=len(r.violations)) for r in results],
+               known_findings_hit=[v.key for v in hits], fixed_findings_documented=len(fixed), **extra)
+    if obl["obligations"]: cov.update(obligations_in_scope=obl["obligations"], discharged_by_engine=obl["discharged"], vetted=obl["vetted"])
+    ev = dict(property_id=cid, tier=tier, seed=seed, level="other", coverage=cov,
+              assumptions=["64-bit target; dev-profile MIR at mir-opt-level 0 is the program (cfg(test) code and the crates renet_steam, bevy_renet, renet_visualizer, demos are not analysed)",
+                           "dependency crates behave as in the contract tables of sa/absint_heap.py and sa/rules.py (octets 0.3, bytes 1, std, chacha20poly1305 0.10)",
+                           "a passing check means the listed necessary conditions hold on every path, not that the whole behavioural property holds (DESIGN.md section 5, 'Not decided')"],
               wall_s=round(time.time() - t0, 2), violations=len(viol))
-    json.dump(ev, open(os.path.join(ROOT, "evidence", f"{cid}.json"), "w"), indent=1)
-    print(f"{cid}: {len(results)} rule instances, {sites} sites, {len(hits)} known finding(s), {len(viol)} violation(s), facts {'extracted' if fresh else 'cached'} {key}, {time.time()-t0:.1f}s")
+    if not replay:
+        tmp = os.path.join(ROOT, "evidence", f".{cid}.json.{os.getpid()}")
+        json.dump(ev, open(tmp, "w"), indent=1)
+        os.replace(tmp, os.path.join(ROOT, "evidence", f"{cid}.json"))
+    print(f"{cid}: tier {tier}, {len(results)} rule instances, {sites} sites, {len(hits)} known finding(s), {len(viol)} violation(s), facts {'extracted' if fresh else 'cached'} {key}, {time.time()-t0:.1f}s")
     sys.exit(1 if viol else 0)
+
 
 if __name__ == "__main__":
     main()
